@@ -240,9 +240,11 @@ impl C09 {
 
 const NEAR_K: [i64; 3] = [1, 3, 1000];
 /// Lists for values that are floats: the law holds up to rounding, and the whole parts are whole.
-const FLOAT_LISTS: [&str; 12] = [
+const FLOAT_LISTS: [&str; 18] = [
     "sqrt(2 hour^2) -> hour;min", "sqrt(10) hour -> hour;min;s", "sqrt(2) day -> day;hour;min;s", "2^0.5 mile -> mile;ft;inch", "-sqrt(3 hour^2) -> hour;min;s", "sqrt(7) kg -> kg;g",
     "sqrt(2) week -> day;hour", "10^0.5 m -> m;cm;mm", "sqrt(5) hour -> min;hour", "exp(1) year -> year;day;hour", "sqrt(2) s -> hour;min;s", "1e30^0.5 s -> year;day",
+    // whole parts beyond 2^63 and 2^64 (a quotient taken through a machine integer saturates there)
+    "exp(100) m -> km;m", "sqrt(1e60) s -> hour;min;s", "-exp(50) s -> hour;s", "sqrt(1e40) m -> mile;ft", "2^63.5 s -> s;ms", "exp(44) s -> min;s",
 ];
 const RELOADS: [&str; 5] = ["week 5 day\n", "year 365 day\n", "day 25 hour\n", "hour 50 minute\n", "minute 100 second\n"];
 const RELOAD_DURS: [&str; 6] = ["12 day", "400 day", "90061.5 s", "-36 hour", "1|3 year", "3e9 s"];
@@ -301,7 +303,7 @@ impl Space for C09 {
         Meta {
             id: "C09",
             level: "exploration",
-            rule: "for every dimensionality with >= 2 positive exact units, up to 6 units (largest, smallest, median, second smallest, a kilo-prefixed and a plural spelling): all ordered lists of length 2 and 3 with repetition x 11-13 rational values (0, +-1, +-1/3, +-7.5, +-1e-9, +-123456789.123, +-1e40); lists of length 4 (thorough 4-6) for time/length/mass/volume; every position of a non-conformable member and a non-conformable value, for the values 3, 0 and (5 - 5); time values for the automatic year/week/day/hour/minute/second breakdown (67 fixed ones plus k x unit +- {0, 1e-9, 1/2, frac/2, frac} s for k in {1,2,10,1000} and every breakdown unit); near-multiple values (k +- e) a -> a;b for every group and ordered pair, k in {1,3,1000}, e in {half the fractional part of a's base-unit value, 1e-12}, and the same in the second stage of 3-unit lists (a quotient computed on truncated operands is off by one exactly there). Plus histories on one context: (optionally a time query,) a further load that defines year/week/day/hour/minute again, then 6 time values, judged with the unit values the context has now. Plus 12 lists for float values (roots, fractional powers, exp), judged by the same clauses up to a relative 1e-9. Oracle: the statement's four clauses on raw part values with unit values from the registry dump. Non-trivial = a law was judged; distinct by query text".into(),
+            rule: "for every dimensionality with >= 2 positive exact units, up to 6 units (largest, smallest, median, second smallest, a kilo-prefixed and a plural spelling): all ordered lists of length 2 and 3 with repetition x 11-13 rational values (0, +-1, +-1/3, +-7.5, +-1e-9, +-123456789.123, +-1e40); lists of length 4 (thorough 4-6) for time/length/mass/volume; every position of a non-conformable member and a non-conformable value, for the values 3, 0 and (5 - 5); time values for the automatic year/week/day/hour/minute/second breakdown (67 fixed ones plus k x unit +- {0, 1e-9, 1/2, frac/2, frac} s for k in {1,2,10,1000} and every breakdown unit); near-multiple values (k +- e) a -> a;b for every group and ordered pair, k in {1,3,1000}, e in {half the fractional part of a's base-unit value, 1e-12}, and the same in the second stage of 3-unit lists (a quotient computed on truncated operands is off by one exactly there). Plus histories on one context: (optionally a time query,) a further load that defines year/week/day/hour/minute again, then 6 time values, judged with the unit values the context has now. Plus 18 lists for float values (roots, fractional powers, exp; six with whole parts beyond 2^63), judged by the same clauses up to a relative 1e-9. Oracle: the statement's four clauses on raw part values with unit values from the registry dump. Non-trivial = a law was judged; distinct by query text".into(),
             assumptions: vec![
                 "negative-valued units (delisle_absolute, wire gauges g00..) are excluded: the sign clause is ill-posed for them".into(),
                 "any error kind counts as a refusal".into(),
